@@ -163,6 +163,8 @@ def gen_options(rng, world, country, facts, swarm=None, allow_neg=False):
     opts["outdir"] = rng.choice(["out", "out", "out/", "nested/x/y", "ABS", None, "out.d", "INPUTDIR", "."])
     opts["path_style"] = rng.choice(["rel", "rel", "abs", "dot"])
     opts["files_in"] = rng.choice(["", "", "inputs/", "cfg dir/"])
+    # the config may be called anything; the spreadsheet must end in .ods
+    opts["file_names"] = rng.choice([None, None, None, ["rp2.conf", "w0.ods"], ["legacy.json", "data.ods"], ["config", "in put.ods"], ["My Config.INI", "2021.final.ods"]])
     env = {}
     if country == "generic":
         env["CURRENCY_CODE"] = rng.choice(["usd", "eur", "jpy", "chf", "USD"])
